@@ -3,20 +3,24 @@ package harness
 import (
 	"bytes"
 	"encoding/json"
+	"errors"
 	"fmt"
 	"os"
 	"testing"
 	"time"
 
+	errorsmod "cosmossdk.io/errors"
 	"github.com/cometbft/cometbft/libs/log"
 	tmproto "github.com/cometbft/cometbft/proto/tendermint/types"
 	"github.com/cosmos/cosmos-sdk/codec"
 	codectypes "github.com/cosmos/cosmos-sdk/codec/types"
 	sdk "github.com/cosmos/cosmos-sdk/types"
+	sdkerrors "github.com/cosmos/cosmos-sdk/types/errors"
 	banktypes "github.com/cosmos/cosmos-sdk/x/bank/types"
 	captypes "github.com/cosmos/cosmos-sdk/x/capability/types"
 	gogoproto "github.com/cosmos/gogoproto/proto"
 	icatypes "github.com/cosmos/ibc-go/v7/modules/apps/27-interchain-accounts/types"
+	channeltypes "github.com/cosmos/ibc-go/v7/modules/core/04-channel/types"
 	"pgregory.net/rapid"
 
 	"github.com/regen-network/regen-ledger/x/data/v3"
@@ -24,6 +28,8 @@ import (
 	baskettypes "github.com/regen-network/regen-ledger/x/ecocredit/v3/basket/types/v1"
 	"github.com/regen-network/regen-ledger/x/intertx/keeper"
 	intertxtypes "github.com/regen-network/regen-ledger/x/intertx/types/v1"
+
+	"verif/eng"
 )
 
 // ---- recording fakes (no gomock expectations) ----
@@ -88,6 +94,24 @@ type c20Case struct {
 	Cap       bool   `json:"cap"`
 	// other owners that have a registered, usable interchain account on the same connection
 	OtherOwners []string `json:"other_owners,omitempty"`
+	// injected fault: index into c20SendErrs of the error the ICA controller's SendTx returns (0 = none)
+	SendErr int `json:"send_err,omitempty"`
+}
+
+// errors a real ICA controller keeper returns from SendTx after SubmitTx's own look-ups succeeded: the
+// active channel is no longer OPEN (closed by a timeout on an ordered channel), the capability does not
+// authenticate, the packet is rejected, anything else
+var c20SendErrs = []error{
+	nil,
+	icatypes.ErrActiveChannelNotFound,
+	errorsmod.Wrapf(icatypes.ErrActiveChannelNotFound, "failed to retrieve active channel on connection %s for port %s", "connection-0", "p"),
+	channeltypes.ErrInvalidChannelState,
+	errorsmod.Wrap(channeltypes.ErrChannelCapabilityNotFound, "module does not own channel capability"),
+	errorsmod.Wrap(channeltypes.ErrInvalidPacket, "packet failed basic validation"),
+	icatypes.ErrInvalidTimeoutTimestamp,
+	sdkerrors.ErrInvalidRequest,
+	errors.New("some other failure"),
+	fmt.Errorf("wrapped: %w", icatypes.ErrActiveChannelNotFound),
 }
 
 func genAddr(t *rapid.T, label string) string {
@@ -200,6 +224,10 @@ func checkC20Step(k keeper.Keeper, ica *fakeICA, caps *fakeCap, c c20Case) error
 	caps.caps["capabilities/ports/"+port+"/channels/channel-99"] = captypes.NewCapability(99)
 	bt := time.Unix(0, c.BlockNs).UTC()
 	ctx := sdk.NewContext(nil, tmproto.Header{Time: bt, Height: 5}, false, log.NewNopLogger())
+	ica.sendErr = nil
+	if c.SendErr > 0 && c.SendErr < len(c20SendErrs) {
+		ica.sendErr = c20SendErrs[c.SendErr]
+	}
 	_, err = k.SubmitTx(sdk.WrapSDKContext(ctx), msg)
 
 	if len(ica.channelLookup) != 1 || ica.channelLookup[0] != [2]string{c.Conn, port} {
@@ -214,6 +242,13 @@ func checkC20Step(k keeper.Keeper, ica *fakeICA, caps *fakeCap, c c20Case) error
 		}
 		if c.Channel && (len(caps.lookups) != 1 || caps.lookups[0] != capPath) {
 			return fmt.Errorf("capability lookups %v, want exactly %q", caps.lookups, capPath)
+		}
+		return nil
+	}
+	if ica.sendErr != nil {
+		// the controller refused the packet: nothing was sent, SubmitTx must not report success
+		if err == nil {
+			return fmt.Errorf("SubmitTx reported success although SendTx failed with %q: nothing was sent", ica.sendErr)
 		}
 		return nil
 	}
@@ -278,6 +313,9 @@ func TestC20(t *testing.T) {
 			InnerType: any.TypeUrl, InnerBin: bin, BlockNs: rapid.Int64Range(1, 4e18).Draw(t, "blocktime"),
 			Channel: rapid.IntRange(0, 3).Draw(t, "chan") > 0, Cap: rapid.IntRange(0, 3).Draw(t, "cap") > 0,
 		}
+		if rapid.IntRange(0, 5).Draw(t, "sendfault") == 0 {
+			c.SendErr = rapid.IntRange(1, len(c20SendErrs)-1).Draw(t, "senderr")
+		}
 		if n, ok := inner.(*intertxtypes.MsgSubmitTx); ok {
 			c.OtherOwners = append(c.OtherOwners, n.Owner)
 			if rapid.Bool().Draw(t, "sameconn") {
@@ -306,6 +344,10 @@ func TestC20(t *testing.T) {
 			default:
 				f.BlockNs = c.BlockNs + int64(rapid.IntRange(1, 1_000_000_000).Draw(t, "dt"))
 			}
+			f.SendErr = 0
+			if rapid.IntRange(0, 5).Draw(t, "fsendfault") == 0 {
+				f.SendErr = rapid.IntRange(1, len(c20SendErrs)-1).Draw(t, "fsenderr")
+			}
 			seq = append(seq, f)
 		}
 		if err := checkC20(seq...); err != nil {
@@ -322,7 +364,10 @@ func TestC20(t *testing.T) {
 			}
 		}
 		recordPure("C20", c.Channel && c.Cap && len(any.Value) > 0, fmt.Sprintf("%s|%x|%v%v", c.Owner, bin, c.Channel, c.Cap),
-			map[string]interface{}{"owner": c.Owner, "conn": c.Conn, "inner_type": c.InnerType, "inner_bytes": len(bin), "block_ns": c.BlockNs, "channel": c.Channel, "capability": c.Cap})
+			map[string]interface{}{"owner": c.Owner, "conn": c.Conn, "inner_type": c.InnerType, "inner_bytes": len(bin), "block_ns": c.BlockNs, "channel": c.Channel, "capability": c.Cap, "injected_sendtx_error": c.SendErr, "submissions_on_keeper": len(seq)})
+		if c.SendErr > 0 && c.Channel && c.Cap {
+			eng.G.Label("sendtx-fault-injected")
+		}
 	})
 }
 
